@@ -105,6 +105,13 @@ func (c *c14) useAssertion(ch *kernel.Chooser) string {
 	p := c.genAssertion(ch)
 	valid, und := c.modelValid(p)
 	surface := ch.Int(5)
+	bodyNote := ""
+	if ch.Bool(1, 3) {
+		// the form additionally names another registered client: the identity is the assertion's issuer all the same
+		p.creds.BodyClientID = ch.Pick("web", "post", "hyb", "native")
+		bodyNote = " [form says client_id=" + p.creds.BodyClientID + "]"
+		c.o.Probe("assertion-with-another-client_id-in-the-form")
+	}
 	var accepted bool
 	var identity string
 	var desc string
@@ -173,7 +180,7 @@ func (c *c14) useAssertion(ch *kernel.Chooser) string {
 			g.access, g.refresh, g.idToken = tr.AccessToken, tr.RefreshToken, tr.IDToken
 		}
 	}
-	desc = fmt.Sprintf("%s with assertion %s (model valid=%v undecided=%v) -> %d accepted=%v", desc, p.label, valid, und, statusOf(r), accepted)
+	desc = fmt.Sprintf("%s with assertion %s%s (model valid=%v undecided=%v) -> %d accepted=%v", desc, p.label, bodyNote, valid, und, statusOf(r), accepted)
 	if panicProbe(c.o, r) || r.Err != nil {
 		return desc
 	}
